@@ -125,7 +125,7 @@ Definition check_drv (prop : Z) (inp impl : sx) : sx :=
                           (* C01: a hop is backed by a genuine reply to the probe with that TTL, sent by that address *)
                           if ((prop =? 1) || (prop =? 11) || (prop =? 5)) && negb (genuine c st v ttl_i && bytes_eqb (v_src v) ip_i) then [1]
                           (* C04: destination flag iff proof of arrival *)
-                          else if (prop =? 4) && negb (Bool.eqb dest (proof_of_arrival c v)) then [4]
+                          else if ((prop =? 4) || (prop =? 3)) && negb (Bool.eqb dest (proof_of_arrival c v)) then [4]
                           (* C05: the RTT is measured against that same probe's send time, never negative *)
                           else if (prop =? 5) && negb ((0 <=? rtt_i) && existsb (fun s => (s_ttl s =? ttl_i) && (rtt_i =? now - s_time s)) st) then [5]
                           else []
